@@ -1044,12 +1044,24 @@ package mcp
 //@   callee s.opts.SubscribeHandler: modifies extern   // application code cannot reach the server's unexported tables
 //@   ensures @the-application-is-asked-at-most-once calls(ask) <= 1 && (result.1 == nil ==> calls(ask) == 1 && callResult(ask, 1, 0) == nil)
 //@   ensures @a-refused-subscription-records-nothing calls(ask) == 1 && callResult(ask, 1, 0) != nil ==> result.1 != nil && s.resourceSubscriptions == old(s.resourceSubscriptions) && (inDom(s.resourceSubscriptions, old(req.Params.URI)) <==> old(inDom(s.resourceSubscriptions, req.Params.URI)))
+// unsubscribe (a resources/unsubscribe request) removes the pair whatever request recorded it; the cleanup of a
+// subscriptions/listen request (unsubscribeOwned with that request's id as owner) removes it only if that listen
+// recorded it (defect F31: it removed the pair unconditionally, so Subscribe; Unsubscribe; Subscribe of the SDK's own
+// 2026-07-28 client left the session unsubscribed while its second listen was open - "exactly the sessions currently
+// subscribed", for all interleavings of subscribing and unsubscribing).
 //@ func (*Server).unsubscribe [C18]
+//@   track unsubscribeOwned as remove
+//@   requires s != nil && req != nil && req.Params != nil
+//@   modifies *
+//@   ensures @a-plain-unsubscribe-removes-the-pair-whoever-recorded-it calls(remove) == 1 && callArg(remove, 1, 2) == req && callArg(remove, 1, 3).value == nil && result.0 == callResult(remove, 1, 0) && result.1 == callResult(remove, 1, 1)
+//@ func (*Server).unsubscribeOwned [C18]
 //@   requires s != nil && req != nil && req.Params != nil
 //@   modifies *
 //@   ghost uri := at(locked, req.Params.URI)
 //@   ghost sess := at(locked, req.Session)
-//@   ensures @subscription-removed result.1 == nil ==> !at(unlocked, inDom(s.resourceSubscriptions, uri)) || !at(unlocked, inDom(s.resourceSubscriptions[uri], sess))
+//@   ghost mine := owner.value == nil || (at(locked, inDom(s.resourceSubscriptions, uri)) && at(locked, rawGet(rawGet(s.resourceSubscriptions, uri), sess)) == owner)
+//@   ensures @subscription-removed result.1 == nil && mine ==> !at(unlocked, inDom(s.resourceSubscriptions, uri)) || !at(unlocked, inDom(s.resourceSubscriptions[uri], sess))
+//@   ensures @a-listen-that-ends-removes-only-the-subscription-it-recorded result.1 == nil && !mine && at(locked, inDom(s.resourceSubscriptions, uri)) && at(locked, inDom(rawGet(s.resourceSubscriptions, uri), sess)) ==> at(unlocked, inDom(s.resourceSubscriptions, uri)) && at(unlocked, inDom(rawGet(s.resourceSubscriptions, uri), sess)) && at(unlocked, rawGet(rawGet(s.resourceSubscriptions, uri), sess)) == at(locked, rawGet(rawGet(s.resourceSubscriptions, uri), sess))
 //@   ghost inner := at(locked, rawGet(s.resourceSubscriptions, uri))
 //@   ensures @only-the-caller-leaves-the-table forall k *ServerSession :: {at(locked, inDom(inner, k))} result.1 == nil && k != sess && at(locked, inDom(s.resourceSubscriptions, uri)) && at(locked, inDom(inner, k)) ==> at(unlocked, inDom(inner, k))
 //@   ensures @entry-dropped-only-when-empty result.1 == nil && at(locked, inDom(s.resourceSubscriptions, uri)) && !at(unlocked, inDom(s.resourceSubscriptions, uri)) ==> at(unlocked, len(inner)) == 0
